@@ -45,6 +45,18 @@ Example C06_backoff_token_is_unexpected : forall f addr tk fa da sa,
   f_state f = AwaitDataResponse addr tk fa -> unexpected_for f (TToken da sa).
 Proof. intros f addr tk fa da sa H. unfold unexpected_for. rewrite H. reflexivity. Qed.
 
+(* C06_backoff, the other token-holding states (UseToken, the transmitting steps of ClaimToken) and
+   PassToken do not read the receive buffer: new receive bytes restart the synchronisation pause, so in
+   that poll nothing is transmitted, no application is called, the bytes stay buffered, the state is kept. *)
+Theorem C06_holding_defers : forall (A : Type) (ops : app_ops A) (f : fdl) (now : Z) (pin : phy_in) (apps : list A)
+                                    (f' : fdl) (o : phy_out) (a : list A) (c : list call),
+  holds_without_reading (f_state f) = true -> tx_busy pin = false -> predicted f now = false ->
+  (f_pending f < length (rx pin))%nat ->
+  poll ops f now pin apps = Ok (f', o, a, c) ->
+  o = mkPhyOut None (rx pin) /\ a = apps /\ c = [] /\ f_state f' = f_state f /\ f_ring f' = f_ring f.
+Proof. exact holding_defers. Qed.
+Print Assumptions C06_holding_defers.
+
 (* C06_collision_leaves, as coded.  (1) ActiveIdle, closure level: a token telegram whose source is the
    own address increments the collision counter; the first is tolerated, any further one makes the
    station leave the ring for ListenToken (ring view and connectivity untouched).  Only token telegrams
@@ -163,8 +175,8 @@ Print Assumptions C06_claim_stagger.
    station holds the token again.
    FULL: the same from ANY state with connectivity online.  Not proved for PassToken / CheckTokenPass
    (a stale ring view is worked off by three transmissions per listed station, C11_retry_discipline
-   describes each step; the bound over the whole LAS is missing), for a pending status request, and for
-   the poll that takes the station online. *)
+   describes each step; the bound over the whole LAS is missing) and for a pending status request; the
+   poll that takes the station online is the next theorem; the token-holding states hold the token already. *)
 Theorem C06_lost_token_recovers_alone_partial : forall (A : Type) (ops : app_ops A) (ts1 : list Z) (f : fdl)
     (apps : list A) (l T : Z),
   f_conn f = ConnOnline -> idle_state (f_state f) -> f_lba f = Some l -> time_ok l ->
@@ -178,6 +190,23 @@ Theorem C06_lost_token_recovers_alone_partial : forall (A : Type) (ops : app_ops
     f_state (s_f' last) = ClaimToken StepSecondToken /\ have_token (f_state (s_f' last)) = true.
 Proof. exact lone_station_claims. Qed.
 Print Assumptions C06_lost_token_recovers_alone_partial.
+
+(* ... and from the moment a freshly created station is set online (state Offline, nothing recorded): the
+   first poll at t0 takes it to ListenToken and starts the time-out. *)
+Theorem C06_lost_token_recovers_alone_fresh_partial : forall (A : Type) (ops : app_ops A) (ts1 : list Z) (f : fdl)
+    (apps : list A) (t0 T : Z),
+  f_conn f = ConnOnline -> f_state f = Offline -> f_lba f = None -> 0 < token_lost_timeout (f_p f) -> time_ok t0 ->
+  Forall (fun t => time_ok t /\ t0 < t /\ t - t0 < token_lost_timeout (f_p f)) ts1 ->
+  time_ok T -> token_lost_timeout (f_p f) <= T - t0 -> t0 + p_bits_to_time (f_p f) sync_pause_bits < T ->
+  exists first pre last,
+    run_polls ops f apps (map silent_in (t0 :: ts1 ++ [T])) = Ok (first :: pre ++ [last]) /\
+    tx (s_out first) = None /\ f_state (s_f' first) = ListenToken None 0 /\
+    Forall (fun s => tx (s_out s) = None /\ f_state (s_f' s) = ListenToken None 0) pre /\
+    length pre = length ts1 /\
+    s_now last = T /\ tx (s_out last) = Some (encode_token (ts f) (ts f)) /\
+    f_state (s_f' last) = ClaimToken StepSecondToken /\ have_token (f_state (s_f' last)) = true.
+Proof. exact fresh_station_claims. Qed.
+Print Assumptions C06_lost_token_recovers_alone_fresh_partial.
 
 Example C06_lone_station_example :
   ex_lone_trace = Ok [(KListenToken, None, 0%nat); (KListenToken, None, 0%nat); (KClaimToken, Some [220; 1; 1], 0%nat)].
